@@ -45,7 +45,7 @@ NODE_OPS = ('replace', 'remove', 'cut', 'put', 'setitem', 'delitem', 'setattr', 
 
 def params(tier):
     if tier == 'quick':
-        return {'examples': 1500, 'wall': 80, 'case_timeout': 20, 'max_steps': 4}
+        return {'examples': 1500, 'wall': 120, 'case_timeout': 20, 'max_steps': 4}
 
     return {'examples': 40000, 'wall': 600, 'case_timeout': 30, 'max_steps': 10}
 
